@@ -16,20 +16,51 @@ def parsePair (s : String) : Option (Nat × Nat) :=
     pure (x, y)
   | _ => none
 
-def parseItem (s : String) : Option Item :=
-  if s == "K" then some .kexinit
-  else if s == "N" then some .newkeys
-  else if s == "X" then some .kexmsg
-  else if s.startsWith "a" then (parsePair (s.drop 1).toString).map (fun p => Item.app p.1 p.2)
+def parseInt (s : String) : Option Int :=
+  if s.startsWith "m" then (s.drop 1).toString.toNat?.map (fun n => -(n : Int)) else s.toNat?.map (fun n => (n : Int))
+
+/-- a wire token: `K`, `N`, `X`, or `a<writer>.<seqno>[.<size>.<bytesLeft>[.p0]]` -/
+def parseTok (s : String) : Option (Item × Option (Nat × Int)) :=
+  if s == "K" then some (.kexinit, none)
+  else if s == "N" then some (.newkeys, none)
+  else if s == "X" then some (.kexmsg, none)
+  else if s.startsWith "a" then
+    match ((s.drop 1).toString.splitOn ".") with
+    | [w, n] => do pure (Item.app (← w.toNat?) (← n.toNat?), none)
+    | w :: n :: z :: l :: _ => do pure (Item.app (← w.toNat?) (← n.toNat?), some (← z.toNat?, ← parseInt l))
+    | _ => none
   else none
+
+def parseItem (s : String) : Option Item := (parseTok s).map (·.1)
+
+/-- budget events of a wire: `none` at each NEWKEYS, `some (size, bytesLeft)` at each application packet -/
+def budgetEvents (toks : List (Item × Option (Nat × Int))) : List (Option (Nat × Int)) :=
+  toks.filterMap fun t =>
+    match t with
+    | (.newkeys, _) => some none
+    | (.app _ _, some zl) => some (some zl)
+    | _ => none
+
+/-- every application packet pushed while the byte budget was already exhausted (`cur ≤ 0` before it) is followed,
+    somewhere later on the wire, by a KEXINIT of this side -/
+def exhaustedThenKex (thr : Int) : Int → List (Item × Option (Nat × Int)) → Bool
+  | _, [] => true
+  | _, (.newkeys, _) :: r => exhaustedThenKex thr thr r
+  | cur, (.app _ _, some (_, l)) :: r =>
+    (decide (0 < cur) || r.any (fun t => t.1 == Item.kexinit)) && exhaustedThenKex thr l r
+  | cur, _ :: r => exhaustedThenKex thr cur r
 
 def parseList {α} (f : String → Option α) (s : String) : Option (List α) :=
   if s == "-" then some [] else (s.splitOn ",").mapM f
 
 /-- all safety predicates for one sending side -/
-def judgeSide (who : String) (wire : List Item) (sub : List Nat) (peerRecv : List (Nat × Nat)) (n : Nat) (maxp : Nat) :
-    Option String :=
-  if !wireOK wire then some s!"{who}: application packet between KEXINIT and NEWKEYS (or unbalanced kex) on the wire"
+def judgeSide (who : String) (toks : List (Item × Option (Nat × Int))) (thr : Nat) (sub : List Nat)
+    (peerRecv : List (Nat × Nat)) (n : Nat) (maxp : Nat) : Option String :=
+  let wire := toks.map (·.1)
+  if !budgetScan thr thr true (budgetEvents toks) then
+    some s!"{who}: writeBytesLeft does not follow the accounting rule (charge while > 0, reset to {thr} after a key exchange, flush uncharged)"
+  else if !exhaustedThenKex thr thr toks then some s!"{who}: a packet was pushed with an exhausted budget and no KEXINIT followed"
+  else if !wireOK wire then some s!"{who}: application packet between KEXINIT and NEWKEYS (or unbalanced kex) on the wire"
   else if maxp > maxPending then some s!"{who}: pending queue reached {maxp}"
   else if sub.any (· != n) then some s!"{who}: a writer did not get all {n} packets accepted"
   else
@@ -46,8 +77,16 @@ def handle (line : String) : String :=
     let o := parseOp opS
     let i := parseOp implS
     if o.cmd != "rk" then "bad-op" else
+    if o.str "failkex" == "1" then
+      -- a re-key that fails (host key rejected): nothing of the application may follow our KEXINIT
+      match parseList parseItem (i.str "cwire") with
+      | some cwire =>
+        if wireOK cwire then "ok"
+        else "client: application packets on the wire after the KEXINIT of a key exchange that failed (no NEWKEYS)"
+      | none => "bad-impl"
+    else
     match o.nat? "n", o.nat? "cw", o.nat? "sw",
-          parseList parseItem (i.str "cwire"), parseList parseItem (i.str "swire"),
+          parseList parseTok (i.str "cwire"), parseList parseTok (i.str "swire"),
           parseList parsePair (i.str "crecv"), parseList parsePair (i.str "srecv"),
           i.natList? "csub", i.natList? "ssub", i.nat? "maxp", i.nat? "maxps" with
     | some n, some cw, some sw, some cwire, some swire, some crecv, some srecv, some csub, some ssub, some maxp, some maxps =>
@@ -55,10 +94,10 @@ def handle (line : String) : String :=
       else if i.str "cerr" != "0" || i.str "serr" != "0" then "a writePacket call failed"
       else if csub.length != cw || ssub.length != sw then "bad-impl"
       else
-        match judgeSide "client" cwire csub srecv n maxp with
+        match judgeSide "client" cwire ((o.nat? "thr").getD 0) csub srecv n maxp with
         | some e => e
         | none =>
-          match judgeSide "server" swire ssub crecv n maxps with
+          match judgeSide "server" swire ((o.nat? "sthr").getD 0) ssub crecv n maxps with
           | some e => e
           | none => "ok"
     | _, _, _, _, _, _, _, _, _, _, _ => "bad-op"
